@@ -395,7 +395,7 @@ pub fn run_check(prop: &str, tier: &str, seed: u64, workers: usize, backend: &st
                         let mut sc = sc.clone();
                         sc.expect_signature = Some(format!("{}|wall-clock|hang:wall-clock|run", prop));
                         let _ = std::fs::write(&path, serde_json::to_string_pretty(&sc).unwrap());
-                        println!("run did not finish within 300 s of wall-clock time (type {} world {:?} seed {})", sc.type_name, sc.world, sc.seed);
+                        println!("violation found: [{}|wall-clock|hang:wall-clock|run] run did not finish within 300 s of wall-clock time (type {} world {:?} seed {})", prop, sc.type_name, sc.world, sc.seed);
                         println!("VIOLATION property={} replay={}", prop, path.display());
                         std::process::exit(1);
                     }
